@@ -4,6 +4,7 @@ CONSTANTS
   Sizes = {19, 60, 117, 130}
   MaxElems = 5
   EmitEdges = FALSE
+  EmitOneIn = 1
   WithReads = TRUE
   AllowPop = TRUE
   GrowUntil = 0
